@@ -47,6 +47,33 @@ func loopAccumulators(f *goast.File, body *ast.BlockStmt) (appended, truncated [
 	return
 }
 
+// the first range loop whose body builds a pdpb.SyncRegionResponse
+func rangeLoopWithResponse(f *goast.File, fd *ast.FuncDecl) *ast.RangeStmt {
+	var found *ast.RangeStmt
+	ast.Inspect(fd.Body, func(n ast.Node) bool {
+		if found != nil {
+			return false
+		}
+		rs, ok := n.(*ast.RangeStmt)
+		if !ok {
+			return true
+		}
+		has := false
+		ast.Inspect(rs.Body, func(m ast.Node) bool {
+			if cl, ok := m.(*ast.CompositeLit); ok && f.Src(cl.Type) == "pdpb.SyncRegionResponse" {
+				has = true
+			}
+			return !has
+		})
+		if has {
+			found = rs
+			return false
+		}
+		return true
+	})
+	return found
+}
+
 // the first `for … range <name>` statement of a function body
 func rangeLoopOver(fd *ast.FuncDecl, name string) *ast.RangeStmt {
 	var found *ast.RangeStmt
@@ -79,6 +106,14 @@ func genC16(repo string) (string, error) {
 	if err != nil {
 		return "", err
 	}
+	// log / metric statements dropped, locals alpha-renamed (normalize.go): such edits must not change the output
+	for _, f := range []*goast.File{hb, srv, cli} {
+		for _, d := range f.AST.Decls {
+			if fd, ok := d.(*ast.FuncDecl); ok && fd.Body != nil {
+				nzNormalize(fd)
+			}
+		}
+	}
 	if err := o.constZ(hb, "defaultFlushCount", "defaultFlushCount"); err != nil {
 		return "", err
 	}
@@ -90,7 +125,7 @@ func genC16(repo string) (string, error) {
 	// ---- history buffer: every write of head/tail/index/flushCount/size/pos with its source text ----
 	hopt := goast.SkelOpt{
 		Calls:   set("persist", "reload", "Load", "Save", "distanceToTail", "nextIndex", "firstIndex", "len", "ParseUint", "FormatUint"),
-		Assigns: set("head", "tail", "index", "flushCount", "size", "pos", "records", "i"),
+		Assigns: nzAllLocals("head", "tail", "index", "flushCount", "size", "records"),
 		Conds:   true,
 	}
 	for _, fn := range []string{"Record", "RecordsFrom", "ResetWithIndex", "GetNextIndex", "reload", "persist", "distanceToTail", "firstIndex", "nextIndex", "len"} {
@@ -141,7 +176,7 @@ func genC16(repo string) (string, error) {
 	// ---- server side ----
 	sopt := goast.SkelOpt{
 		Calls:   set("RecordsFrom", "GetNextIndex", "GetRegions", "Send", "Record", "broadcast", "syncHistoryRegion", "bindStream"),
-		Assigns: set("metas", "stats", "leaders", "lastIndex", "regions", "requests", "records", "startIndex", "leader"),
+		Assigns: nzAllLocals(),
 		Conds:   true,
 	}
 	for _, fn := range []string{"syncHistoryRegion", "RunServer", "Sync"} {
@@ -153,13 +188,40 @@ func genC16(repo string) (string, error) {
 	if err != nil {
 		return "", err
 	}
-	loop := rangeLoopOver(fd, "regions")
+	loop := rangeLoopWithResponse(srv, fd)
 	if loop == nil {
-		return "", fmt.Errorf("%s: anchor: `for … range regions` (full synchronisation loop) not found in syncHistoryRegion", srv.Path)
+		return "", fmt.Errorf("%s: anchor: the range loop that builds SyncRegionResponse batches (full synchronisation) not found in syncHistoryRegion", srv.Path)
 	}
 	app, trunc := loopAccumulators(srv, loop.Body)
-	o.strList("full_sync_appended", app, "slices appended to in the full-sync loop of syncHistoryRegion")
-	o.strList("full_sync_truncated", trunc, "of those, the ones reset with x = x[:0] after a batch was sent")
+	// accumulators are named after the response field they feed, so that renaming a local changes nothing
+	fieldOf := map[string]string{}
+	ast.Inspect(loop.Body, func(n ast.Node) bool {
+		cl, ok := n.(*ast.CompositeLit)
+		if !ok || srv.Src(cl.Type) != "pdpb.SyncRegionResponse" {
+			return true
+		}
+		for _, e := range cl.Elts {
+			if kv, ok := e.(*ast.KeyValueExpr); ok {
+				if id, ok := kv.Value.(*ast.Ident); ok {
+					fieldOf[id.Name] = srv.Src(kv.Key)
+				}
+			}
+		}
+		return false
+	})
+	byField := func(xs []string) []string {
+		out := make([]string, len(xs))
+		for i, x := range xs {
+			if f, ok := fieldOf[x]; ok {
+				out[i] = f
+			} else {
+				out[i] = x
+			}
+		}
+		return out
+	}
+	o.strList("full_sync_appended", byField(app), "response fields whose slices are appended to in the full-sync loop of syncHistoryRegion")
+	o.strList("full_sync_truncated", byField(trunc), "of those, the ones whose slice is reset with x = x[:0] after a batch was sent")
 	// which accumulator feeds which field of the response built inside the loop
 	var fields []string
 	ast.Inspect(loop.Body, func(n ast.Node) bool {
@@ -205,7 +267,7 @@ func genC16(repo string) (string, error) {
 	// ---- client side: how the follower pairs the three arrays ----
 	copt := goast.SkelOpt{
 		Calls:   set("GetNextIndex", "ResetWithIndex", "GetStartIndex", "GetRegionStats", "GetRegions", "GetRegionLeaders", "NewRegionInfo", "CheckAndPutRegion", "SaveRegion", "Record", "LoadRegionsOnce", "Recv"),
-		Assigns: set("hasStats", "regionLeader", "region", "stats", "regions", "regionLeaders", "err"),
+		Assigns: nzAllLocals(),
 		Conds:   true,
 	}
 	if err := o.skeleton(cli, "RegionSyncer", "StartSyncWithLeader", "skel_StartSyncWithLeader", copt); err != nil {
